@@ -76,8 +76,10 @@ func uniqInts(xs []int) []int {
 
 // Level of an alphabet.
 const (
-	Core = 0
-	Full = 1
+	Micro = -2 // ~40 words: one witness per boundary class
+	Mini  = -1 // ~75 words
+	Core  = 0  // ~110 words
+	Full  = 1  // ~150-190 words
 )
 
 // Alphabet returns the word alphabet for word i of segment s of a message
@@ -90,6 +92,9 @@ const (
 // with every landing offset, capability / other pointers and data words.
 // The order is deterministic.
 func Alphabet(segLens []int, s, i int, level int) []uint64 {
+	if level < Core {
+		return alphabetSmall(segLens, s, i, level)
+	}
 	L := segLens[s]
 	ws := &wordSet{seen: map[uint64]bool{}}
 	t0 := i + 1 // target of offset 0
@@ -279,6 +284,142 @@ func PointerOnly(L, i int) []uint64 {
 		if o+1 < L {
 			ws.add(FarPtr(0, uint32(o), true))
 		}
+	}
+	return ws.out
+}
+
+// alphabetSmall is the reduced alphabet: for each pointer kind the region
+// that exactly fits the rest of the segment and the one that overflows it by
+// one unit, regions starting at -1, 0, L and L+1, the field extrema and the
+// composite tag shapes; Mini adds the second fixed start and more list types.
+func alphabetSmall(segLens []int, s, i int, level int) []uint64 {
+	L := segLens[s]
+	ws := &wordSet{seen: map[uint64]bool{}}
+	t0 := i + 1
+	off := func(t int) int32 { return int32(t - t0) }
+	room := L - t0
+	if room < 0 {
+		room = 0
+	}
+	mini := level == Mini
+	ws.add(0)
+	ws.add(0x0000000021006968)
+	// structs
+	ws.add(StructPtr(0, 0, 0))
+	ws.add(StructPtr(-1, 0, 0))
+	ws.add(StructPtr(0, 1, 1))
+	ws.add(StructPtr(0, 0, uint16(room)))
+	ws.add(StructPtr(0, 0, uint16(room+1)))
+	ws.add(StructPtr(0, uint16(room+1), 0))
+	ws.add(StructPtr(off(0), 0, 1))
+	ws.add(StructPtr(off(-1), 0, 1))
+	ws.add(StructPtr(off(L), 0, 1))
+	ws.add(StructPtr(0, 0xFFFF, 0xFFFF))
+	if mini {
+		ws.add(StructPtr(0, 1, 0))
+		ws.add(StructPtr(0, 0, 1))
+		ws.add(StructPtr(0, uint16(room), 0))
+		ws.add(StructPtr(off(0), 1, 1))
+		ws.add(StructPtr(off(0), 0, uint16(L)))
+		ws.add(StructPtr(off(0), 0, uint16(L+1)))
+		ws.add(StructPtr(off(L), 0, 0))
+		ws.add(StructPtr(off(L+1), 0, 0))
+		ws.add(StructPtr(0, 0xFFFF, 0))
+		ws.add(StructPtr(0, 0, 0xFFFF))
+		ws.add(StructPtr(MaxOffset, 1, 1))
+		ws.add(StructPtr(MinOffset, 0, 0))
+	}
+	// lists
+	ets := []uint8{2, 6}
+	if mini {
+		ets = []uint8{1, 2, 3, 4, 5, 6}
+	}
+	for _, et := range ets {
+		ws.add(ListPtr(0, et, uint32(room*perWord[et])))
+		ws.add(ListPtr(0, et, uint32(room*perWord[et]+1)))
+	}
+	ws.add(ListPtr(0, 1, uint32(room*64+1)))
+	ws.add(ListPtr(0, 5, uint32(room+1)))
+	ws.add(ListPtr(0, 0, MaxCount))
+	ws.add(ListPtr(off(-1), 2, 1))
+	ws.add(ListPtr(off(0), 6, 1))
+	if mini {
+		ws.add(ListPtr(0, 0, 1))
+		ws.add(ListPtr(0, 2, 0))
+		ws.add(ListPtr(off(L), 2, 1))
+		ws.add(ListPtr(off(L+1), 2, 0))
+		ws.add(ListPtr(off(-1), 6, 1))
+		ws.add(ListPtr(off(L), 6, 1))
+		ws.add(ListPtr(off(0), 2, uint32(8*L)))
+		ws.add(ListPtr(off(0), 2, uint32(8*L+1)))
+		ws.add(ListPtr(0, 5, MaxCount))
+		ws.add(ListPtr(0, 1, MaxCount))
+		ws.add(ListPtr(0, 6, 2))
+	}
+	// composite list pointers
+	if room >= 1 {
+		ws.add(ListPtr(0, 7, uint32(room-1)))
+	}
+	ws.add(ListPtr(0, 7, uint32(room)))
+	ws.add(ListPtr(-1, 7, 1))
+	ws.add(ListPtr(off(0), 7, 1))
+	if mini {
+		ws.add(ListPtr(0, 7, 0))
+		ws.add(ListPtr(0, 7, 1))
+		ws.add(ListPtr(off(0), 7, uint32(L)))
+		ws.add(ListPtr(off(L-1), 7, 0))
+		ws.add(ListPtr(off(L), 7, 0))
+		ws.add(ListPtr(0, 7, MaxCount))
+	}
+	// tags
+	ws.add(Tag(-1, 0, 0))
+	ws.add(Tag(1, 0, 1))
+	ws.add(Tag(1, 1, 1))
+	ws.add(Tag(1, 1, 0))
+	ws.add(Tag(2, 0, 1))
+	ws.add(Tag(MaxCount, 0, 0))
+	if mini {
+		ws.add(Tag(0, 0, 0))
+		ws.add(Tag(1, 0, 0))
+		ws.add(Tag(0, 1, 1))
+		ws.add(Tag(-1, 1, 1))
+		ws.add(Tag(2, 1, 0))
+		ws.add(Tag(1, 0xFFFF, 0xFFFF))
+		ws.add(Tag(MaxCount, 1, 0))
+	}
+	// far / double-far
+	n := len(segLens)
+	for id := 0; id < n; id++ {
+		l := segLens[id]
+		for _, o := range uniqInts([]int{0, l - 1, l}) {
+			if o >= 0 {
+				ws.add(FarPtr(uint32(id), uint32(o), false))
+			}
+		}
+		for _, o := range uniqInts([]int{0, l - 2, l - 1}) {
+			if o >= 0 {
+				ws.add(FarPtr(uint32(id), uint32(o), true))
+			}
+		}
+		if mini {
+			ws.add(FarPtr(uint32(id), uint32(l+1), false))
+			ws.add(FarPtr(uint32(id), uint32(l), true))
+			if l >= 2 {
+				ws.add(FarPtr(uint32(id), 1, false))
+			}
+		}
+	}
+	ws.add(FarPtr(uint32(n), 0, false))
+	if mini {
+		ws.add(FarPtr(uint32(n), 0, true))
+		ws.add(FarPtr(0xFFFFFFFF, 0, false))
+		ws.add(FarPtr(0xFFFFFFFF, 0, true))
+	}
+	ws.add(CapPtr(0))
+	ws.add(OtherPtr(1, 0))
+	if mini {
+		ws.add(CapPtr(0xFFFFFFFF))
+		ws.add(^uint64(0))
 	}
 	return ws.out
 }
